@@ -478,3 +478,43 @@ Definition extended_copy_x (resolve : str -> option desc) (roots_ok copy_ok tag_
     else if negb tag_ok then XErr OpTag
     else XOk node ((dst_ref', d_id node) :: tags)
   end.
+
+(* ------------------------------------------------------------------ failing operations below a
+   caller-supplied FindPredecessors: the caller's function lists the predecessors (one operation:
+   its own call into the source), every filter then takes the generic branch *)
+Definition find_preds_custom_e (s : source) (custom : nat -> list desc) (fs : list filter) (id : nat) (k : nat)
+  : option (list desc * nat) :=
+  match tick k with
+  | None => None
+  | Some k1 =>
+    match fold_left (step_e s) fs (Some (false, custom id, k1)) with
+    | None => None
+    | Some (_, ps, k2) => Some (ps, k2)
+    end
+  end.
+
+(* the error-aware loop over any error-aware FindPredecessors *)
+Fixpoint dfs_ef (fuel : nat) (fpe : nat -> nat -> option (list desc * nat)) (limit : Z)
+         (stack : list frame) (visited : list nat) (roots : list desc) (k : nat) : result :=
+  match fuel with
+  | O => RFuel
+  | S fuel' =>
+    match stack with
+    | [] => ROk roots
+    | (cur, d) :: rest =>
+      if mem (d_id cur) visited then dfs_ef fuel' fpe limit rest visited roots k
+      else
+        let visited' := d_id cur :: visited in
+        if ((0 <? limit)%Z && (Z.of_nat d =? limit)%Z)%bool
+        then dfs_ef fuel' fpe limit rest visited' (add_root cur roots) k
+        else match fpe (d_id cur) k with
+             | None => RErr
+             | Some ([], k') => dfs_ef fuel' fpe limit rest visited' (add_root cur roots) k'
+             | Some (ps, k') => dfs_ef fuel' fpe limit (push_preds ps (S d) visited' rest) visited' roots k'
+             end
+    end
+  end.
+
+Definition find_roots_custom_e (fuel : nat) (s : source) (custom : nat -> list desc) (fs : list filter)
+           (limit : Z) (node : desc) (k : nat) : result :=
+  dfs_ef fuel (find_preds_custom_e s custom fs) limit [(node, O)] [] [] k.
